@@ -17,7 +17,7 @@ PROPS = {
                      mc("MCBodyWriter", "MCBodyWriter_chunked_defect3.cfg", expect_violation="Refines")],
         "mc_thorough": [mc("MCBodyWriter", "MCBodyWriter_chunked_impl.cfg"), mc("MCBodyWriter", "MCBodyWriter_chunked_abs_thorough.cfg", workers=8),
                         mc("MCChunkPlan", "MCChunkPlan_small.cfg"), mc("MCChunkPlan", "MCChunkPlan_real_quick.cfg", workers=8)],
-        "require_classes": ["w:term", "w:finish-no-room", "w:err", "w:partial", "dw:err"],
+        "require_classes": ["w:term", "w:finish-no-room", "w:err", "w:partial", "dw:err", "w:queries-after-end"],
         "rule": "one case = a fresh chunked writer (Flow<SendBody> or Call<WithBody>) + a schedule of (input length, buffer length) writes; "
                 "distinct = distinct (generator family, api, lengths / log2-shape of the schedule)",
         "assumptions": BW_ASSUME,
@@ -50,7 +50,7 @@ PROPS = {
                      mc("MCSendLoop", "MCSendLoop_defect.cfg", workers=2, expect_violation="Terminates")],
         "mc_thorough": [mc("MCChunkPlan", "MCChunkPlan_small.cfg"), mc("MCChunkPlan", "MCChunkPlan_real_thorough.cfg", workers=16, timeout=3000),
                         mc("MCSendLoop", "MCSendLoop.cfg", workers=2), mc("MCSendLoop", "MCSendLoop_real.cfg", workers=2)],
-        "require_classes": ["w:partial", "w:large-then-small"],
+        "require_classes": ["w:partial", "w:large-then-small", "w:stalls-then-room"],
         "rule": "one case = one probe write (input length, buffer length) on a fresh writer, grouped in rows per buffer length, "
                 "or one whole-body send loop with a fixed buffer; distinct = distinct (buffer length, input length) / loop configuration",
         "assumptions": BW_ASSUME,
